@@ -109,3 +109,27 @@ package db
 //@ func (*LocalDB).Rollback [C08]
 //@   ensures !l.intx && l.txcache == nil
 //@   ensures l.cache == old(l.cache) && l.maindb == old(l.maindb)
+
+// Get: the view, with an empty value meaning "hidden / deleted"
+//@ func (*LocalDB).Get [C08]
+//@   opt safety=assumed panics=allowed
+//@   requires l.maindb != nil
+//@   requires l.cache != l.maindb && l.txcache != l.maindb && (l.cache == nil || l.cache != l.txcache)
+//@   ensures result1 == nil ==> lvhas(l.intx, l.txcache == nil, old(l.txcache.kvhas), l.cache == nil, old(l.cache.kvhas), old(l.maindb.kvhas), bytes(key)) && len(result0) != 0
+//@   ensures result1 == nil ==> bytes(result0) == lvval(l.intx, l.txcache == nil, old(l.txcache.kvhas), old(l.txcache.kvval), l.cache == nil, old(l.cache.kvhas), old(l.cache.kvval), old(l.maindb.kvval), bytes(key))
+//@   ensures result1 != nil ==> !lvhas(l.intx, l.txcache == nil, old(l.txcache.kvhas), l.cache == nil, old(l.cache.kvhas), old(l.maindb.kvhas), bytes(key)) || blen(lvval(l.intx, l.txcache == nil, old(l.txcache.kvhas), old(l.txcache.kvval), l.cache == nil, old(l.cache.kvhas), old(l.cache.kvval), old(l.maindb.kvval), bytes(key))) == 0
+
+//@ trusted func newMemDB
+//@   opt fresh
+//@   frame allocates
+//@   ensures forall k Bytes :: !result.kvhas[k]
+
+// Set writes into the open transaction if there is one, otherwise into the cache; never into main
+//@ func (*LocalDB).Set [C08]
+//@   opt safety=assumed panics=allowed
+//@   requires l.cache != l.maindb && l.txcache != l.maindb
+//@   ensures result == nil
+//@   ensures l.maindb == old(l.maindb) && l.maindb.kvhas == old(l.maindb.kvhas) && l.maindb.kvval == old(l.maindb.kvval)
+//@   ensures old(l.intx) ==> l.txcache != nil && l.txcache.kvhas[bytes(key)] && l.txcache.kvval[bytes(key)] == bytes(value)
+//@   ensures !old(l.intx) && l.cache != nil ==> l.cache.kvhas[bytes(key)] && l.cache.kvval[bytes(key)] == bytes(value)
+//@   ensures old(l.intx) && old(l.txcache) != nil ==> forall k Bytes :: k != bytes(key) ==> l.txcache.kvhas[k] == old(l.txcache.kvhas[k]) && l.txcache.kvval[k] == old(l.txcache.kvval[k])
